@@ -128,14 +128,18 @@ Section Base.
       + right. eapply anc_trans; eauto.
   Qed.
   Lemma spec_ext inp inp' n : n < N ->
-    (forall m, isinput m = true -> inp m = inp' m) -> spec inp n = spec inp' n.
-  Proof. intros L E. apply spec_agree; auto. Qed.
+    (forall m, m < N -> isinput m = true -> inp m = inp' m) -> spec inp n = spec inp' n.
+  Proof.
+    intros L E. apply spec_agree; auto. intros m Im [->|A]; apply E; auto.
+    pose proof (anc_lt _ _ L A). lia.
+  Qed.
   Lemma spec_indep inp inp' x n : n < N ->
-    (forall m, isinput m = true -> m <> x -> inp m = inp' m) ->
+    (forall m, m < N -> isinput m = true -> m <> x -> inp m = inp' m) ->
     n <> x -> ~ anc x n -> spec inp n = spec inp' n.
   Proof.
     intros L E NX NA. apply spec_agree; auto. intros m Im [->|A]; apply E; auto.
-    intros ->. auto.
+    - pose proof (anc_lt _ _ L A). lia.
+    - intros ->. auto.
   Qed.
 
   (* ------------------------------------------------------------- succs *)
